@@ -30,7 +30,8 @@ Init == /\ arrays = <<>> /\ buf = [arr |-> 0, len |-> 0] /\ acts = <<>>
 
 \* a cell is tagged with the identity of the activation that wrote it and its position
 NewAct == [id |-> nextTag, arr |-> buf.arr, len |-> buf.len, top |-> 0, shadow |-> <<>>]
-Tag(a) == a.id * 100 + a.top + 1
+Tag(a) == <<a.id, a.top + 1>>
+ZeroCell == <<0, 0>>
 
 \* a call from the application (not from a handler)
 Enter == /\ acts = <<>> /\ calls < MaxCalls /\ nextTag <= MaxActs
@@ -41,24 +42,26 @@ Cells(a) == IF a.arr = 0 THEN <<>> ELSE arrays[a.arr].cells
 CapOf(a) == IF a.arr = 0 THEN 0 ELSE arrays[a.arr].cap
 
 \* prepush + push: stack = append(stack, make([]int, 1+top-len)...) when top+1 >= len; stack[top] = cs; top++
-Push ==
+\* ncap: the capacity the runtime gives a re-allocated array (append's growth policy is not part of the model:
+\* the exhaustive configurations try need and 2*need, trace validation uses the capacity that was observed)
+Need(a) == IF a.top + 1 >= a.len THEN a.top + 1 ELSE a.len     \* length after prepush
+PushWith(ncap) ==
   /\ acts # <<>>
-  /\ LET a == Last(acts) IN
+  /\ LET a == Last(acts)  need == Need(a) IN
      /\ a.top < MaxPush
-     /\ LET need == IF a.top + 1 >= a.len THEN a.top + 1 ELSE a.len     \* length after prepush
-        IN \/ /\ need <= CapOf(a)                                       \* grows (or not) in place
-              /\ LET cells0 == [i \in 1..CapOf(a) |-> IF i > a.len /\ i <= need THEN 0 ELSE Cells(a)[i]]
-                     cells1 == [cells0 EXCEPT ![a.top + 1] = Tag(a)]
-                 IN /\ arrays' = [arrays EXCEPT ![a.arr].cells = cells1]
-                    /\ acts' = [acts EXCEPT ![Len(acts)] = [a EXCEPT !.len = need, !.top = a.top + 1, !.shadow = Append(a.shadow, Tag(a))]]
-           \/ /\ need > CapOf(a) /\ Len(arrays) < MaxArrays                \* re-allocation
-              /\ \E ncap \in {need, 2 * need} :
-                   LET cells0 == [i \in 1..ncap |-> IF i <= a.len THEN Cells(a)[i] ELSE 0]
-                       cells1 == [cells0 EXCEPT ![a.top + 1] = Tag(a)]
-                   IN /\ arrays' = Append(arrays, [cap |-> ncap, cells |-> cells1])
-                      /\ acts' = [acts EXCEPT ![Len(acts)] = [a EXCEPT !.arr = Len(arrays) + 1, !.len = need, !.top = a.top + 1,
-                                                                         !.shadow = Append(a.shadow, Tag(a))]]
-     /\ UNCHANGED <<buf, stale, calls, nextTag>>
+     /\ \/ /\ need <= CapOf(a)                                       \* grows (or not) in place
+           /\ LET cells0 == [i \in 1..CapOf(a) |-> IF i > a.len /\ i <= need THEN ZeroCell ELSE Cells(a)[i]]
+                  cells1 == [cells0 EXCEPT ![a.top + 1] = Tag(a)]
+              IN /\ arrays' = [arrays EXCEPT ![a.arr].cells = cells1]
+                 /\ acts' = [acts EXCEPT ![Len(acts)] = [a EXCEPT !.len = need, !.top = a.top + 1, !.shadow = Append(a.shadow, Tag(a))]]
+        \/ /\ need > CapOf(a) /\ Len(arrays) < MaxArrays /\ ncap >= need        \* re-allocation
+           /\ LET cells0 == [i \in 1..ncap |-> IF i <= a.len THEN Cells(a)[i] ELSE ZeroCell]
+                  cells1 == [cells0 EXCEPT ![a.top + 1] = Tag(a)]
+              IN /\ arrays' = Append(arrays, [cap |-> ncap, cells |-> cells1])
+                 /\ acts' = [acts EXCEPT ![Len(acts)] = [a EXCEPT !.arr = Len(arrays) + 1, !.len = need, !.top = a.top + 1,
+                                                                    !.shadow = Append(a.shadow, Tag(a))]]
+  /\ UNCHANGED <<buf, stale, calls, nextTag>>
+Push == acts # <<>> /\ \E ncap \in {Need(Last(acts)), 2 * Need(Last(acts))} : PushWith(ncap)
 
 \* fret: top--; cs = stack[top]
 Pop ==
